@@ -1,11 +1,16 @@
 /-
   Scheduler tie (C01 / C02 / C11): which variant of the model /repo's working tree implements.
-  `Generated/C01_SchedFacts.lean` is regenerated on every run by harness/cmd/schedfacts (go/ast over
-  the current server/sched.go): is the `delete(s.loaded, …)` of the expired handler guarded by the
-  identity test, does useLoadedRunner re-validate the runner and does the pending loop retry.
+  `Generated/C01_SchedFacts.lean` is regenerated on every run (vlib/checks/sched_common.py):
+  * `treeVariant`: each flag is true iff the REAL scheduler of the tree stays inside the property on the
+    F12a (duplicate expired event) resp. F12b (grant after unload) witness schedules — a behavioural probe,
+    insensitive to how the guard is written — AND harness/cmd/schedfacts (go/ast over server/sched.go, helper
+    calls inlined, conditions evaluated for what they imply) does not find an unguarded `delete(s.loaded, …)`
+    resp. a refCount increment that is not preceded by the `llama == nil` re-check;
+  * the structural facts that cannot be probed (atomicity of the expired / make-room regions, the delete
+    sites, the non-blocking enqueue, the purity of the unloaded arms, channel capacities) by go/ast.
   If a change removes one of the guards, `tree_variant_good` stops compiling (`decide` fails), the
-  theorems below no longer apply to the tree, and the check reports the broken obligation (and
-  searches the real scheduler for a failing trace).
+  theorems below no longer apply to the tree, and the check reports the broken obligation together with the
+  monitors that fired on the witness schedule (a concrete failing input).
 -/
 import OllamaVerif.Properties.C11
 import OllamaVerif.Properties.C02
